@@ -121,6 +121,24 @@ def run(ctx: Ctx):
                     if isinstance(n, ast.Call) and A.call_name(n) in (f"{u}.set_position", f"{u}.reset"):
                         ctx.fail(cons + "#rewind", f.loc(n), "cursor is repositioned inside the decode loop")
     ctx.note(f"decode loops found: {loops}")
+    # nothing reachable from a decode loop body repositions an unpacker
+    fu0 = model.func("message.avp.avp", "Avp.from_unpacker")
+    reach = E.reachable_funcs([fu0])
+    ctx.inst("decode-loop-callees:no-rewind", sample=[g_.qualname for g_ in reach][:12])
+    for g_ in reach:
+        if g_.cls is not None and g_.cls.name == "Unpacker" and g_.name in ("set_position", "reset",
+                                                                             "__init__"):
+            continue
+        for n in A.walk_no_nested(g_.node):
+            if isinstance(n, ast.Call) and isinstance(n.func, ast.Attribute) \
+                    and n.func.attr in ("set_position", "reset"):
+                rc = E.recv_class(n.func.value, g_)
+                if rc is None or getattr(rc, "name", "") == "Unpacker":
+                    ctx.fail("decode-loop-callees:no-rewind", g_.loc(n),
+                             f"{g_.qualname} (reached from every decode loop through "
+                             f"Avp.from_unpacker) repositions the unpacker cursor with "
+                             f"`{ast.unparse(n)}`: with a hostile length field the cursor can "
+                             f"move backwards and the decode loop never terminates")
     fu = model.func("message.avp.avp", "Avp.from_unpacker")
     g = cfg_of(fu, effects=E)
     param = [a.arg for a in fu.node.args.args][1]
